@@ -18,6 +18,15 @@ CLAIMED = {
                 note="Trusted: z3/cvc5, vx/refsem.py + vx/refprog.py reference semantics, proxy semantics (validated by vx/selftest.py). Signed division/remainder equivalence is decided up to 16 bit (quick) and with one operand pinned to boundary constants at 32/64 bit; general 32/64-bit division queries are bug-hunt only (reported inconclusive). NaN payloads not modelled."),
 }
 
+CLAIMED.update({
+    "C14": dict(cat="translation_validation", design="DESIGN.md §4 C14",
+                text="Symbolic translation validation (M3): canonicalize, constant-fold-interp, the test constant-folding passes and cse run natively on ~1270 arith program skeletons whose constants are SYMBOLIC (the passes fork on them); source and result get meaning from the reference semantics on symbolic arguments and z3 decides refinement (defined => defined, bit-identical results, same effects) for all constants and arguments of i1/i8/i64 (thorough: +i16/i32/index), f32/f64, incl. fast-math flag combinations and overflow flags.",
+                note="Trusted: z3/cvc5, vx/refsem.py + vx/refprog.py (incl. the stated fast-math reading), struct pack/unpack IEEE model. Skeletons have <=2 arith ops (3 for chains); CSE skeletons use concrete boundary constants; f32 constant-constant folds and 64-bit division/multiplication folds of two free constants are inconclusive (solver) and reported as such."),
+    "C26": dict(cat="other", design="DESIGN.md §4 C26",
+                text="Unit-symbolic (M1): for every expression-tree shape (<=2 binary nodes quick, <=3 thorough) the real AffineExpr construction/simplify/compose/replace/AffineMap.compose/print+parse code runs with SYMBOLIC constants and a symbolic evaluation point; z3 decides value preservation against an independent reference evaluation for all constants and points in the box; constant folds additionally at 64 bit with pinned divisors.",
+                note="Trusted: z3, reference arithmetic in vx/checks/c26.py, symbolic math.gcd shim. Boxes: coefficients [-3,3]/[-4,4], addends [-4,4]/[-6,6], divisors [1,4]/[1,6], points [-12,12]/[-20,20]; print/parse uses boundary constants."),
+})
+
 NOT_APPLICABLE = {
     "C05": "custom assembly formats: the quantifier is over ~80 dialects' op definitions/format programs; no data dimension for a solver beyond what C04/C06 cover for leaves (DESIGN §5)",
     "C17": "pass x corpus-module cross product: deciding it means running each pair concretely; no symbolic dimension (DESIGN §5)",
